@@ -13,7 +13,7 @@ def save_package():
     from pyvc import loader
     fs = FSM.FS()
     js = FSM.SpecJSON()
-    pkg = loader.Package(stubs={"json": js, "os": FSM.SpecOS(fs)})
+    pkg = loader.Package(stubs={"json": js, "os": FSM.SpecOS(fs), "tempfile": FSM.SpecTempfile(fs), "shutil": FSM.SpecShutil(fs)})
     pkg.fs, pkg.js = fs, js
     return pkg
 
